@@ -444,11 +444,16 @@ RULE_SUFFIX = ("; plus edit-after-observe histories (depth 2 quick / 3 thorough)
                "block built fresh from the edited content")
 
 
-def edited_variant(t, base_spec):
-    """A block that was built, observed (sized / written / compared) and then edited in place, with
-    the spec of its final content.  Used as a payload variant by the container driver."""
+def edited_variant(t, base_spec, origin="built"):
+    """A block that was built (or, origin="decoded", read from bytes), observed (sized / written /
+    compared) and then edited in place, with the spec of its final content.  Used as a payload variant by
+    the container driver."""
     m = EditMachine(t, ("size",))
-    b = m._observed(specs.build(base_spec))
+    if origin == "decoded":
+        start = specs.lib_decode(t, base_spec["format"], R.encode_block(base_spec))[0]
+    else:
+        start = specs.build(base_spec)
+    b = m._observed(start)
     model = {"spec": copy.deepcopy(base_spec), "prev": None}
     prefer = {R.T_EVENTS: "values_list", R.T_DATA2D: "cell_grow", R.T_PLATCAL: "label", R.T_OPT: "ch_append", R.T_CALIB: "value"}
     ops = m.ops(model)
